@@ -723,11 +723,40 @@ def rand_c(rs, shape, cplx):
     return a + 1j * rs.standard_normal(shape) if cplx else a
 
 
+def block_levels(pyrng, base, size):
+    """Levels of one explicit block (values base + 0.3 j): ascending, descending, shuffled with random
+    multiplicities, or a degenerate level interleaved with another one ((x, y, x), (x, y, y, x), (x, y, x, y)).
+    The order inside a block is the order of the supplied eigenvectors; nothing requires it to be sorted."""
+    v = [base + 0.3 * j for j in range(4)]
+    pattern = pyrng.choice(["equal", "asc", "desc", "desc", "shuffle", "shuffle", "interleaved", "interleaved"])
+    if size == 1 or pattern == "equal":
+        return [base] * size, "equal"
+    if pattern == "asc":
+        return v[:size], pattern
+    if pattern == "desc":
+        return v[:size][::-1], pattern
+    if pattern == "interleaved" and size >= 3:
+        x, y = pyrng.sample(v[:3], 2)
+        return ([x, y, x] if size == 3 else pyrng.choice([[x, y, y, x], [x, y, x, y], [y, x, x, y]])), pattern
+    lv = [pyrng.choice(v[:max(2, size - 1)]) for _ in range(size)]
+    pyrng.shuffle(lv)
+    if lv == sorted(lv):
+        lv = lv[::-1]
+    return lv, "shuffle"
+
+
 def float_problem(rs, pyrng, nmax):
-    """h0 with known explicit eigenvectors split in blocks, degenerate explicit levels."""
-    n = pyrng.randint(3, nmax)
+    """h0 with known explicit eigenvectors split in blocks of 1-4 levels in arbitrary order (descending,
+    shuffled, degenerate levels interleaved with others), real or complex, Hermitian or biorthogonal."""
     cplx = pyrng.random() < 0.5
     hermitian = pyrng.random() < 0.5
+    nblocks = pyrng.randint(1, 2)
+    sizes = [pyrng.randint(1, 4) for _ in range(nblocks)]
+    while sum(sizes) > nmax - 1:
+        sizes[sizes.index(max(sizes))] -= 1
+    sizes = [s_ for s_ in sizes if s_ > 0]
+    nexp = sum(sizes)
+    n = pyrng.randint(max(3, nexp + 1), max(3, nexp + 1, nmax))
     if hermitian:
         R = np.linalg.qr(rand_c(rs, (n, n), cplx))[0]
         Ri = R.conj().T
@@ -736,17 +765,12 @@ def float_problem(rs, pyrng, nmax):
         while np.linalg.cond(R) > 30:  # keep the eigenproblem well conditioned (tolerances assume it)
             R = 0.5 * rand_c(rs, (n, n), cplx) + 2 * np.eye(n)
         Ri = np.linalg.inv(R)
-    nblocks = pyrng.randint(1, 2)
-    sizes = [pyrng.randint(1, 2) for _ in range(nblocks)]
-    while sum(sizes) >= n:
-        sizes[-1] -= 1
-        if sizes[-1] == 0:
-            sizes.pop()
-    nexp = sum(sizes)
-    levels = []
-    bases = pyrng.sample([-2.0, -1.0, 0.0, 1.0], len(sizes))
-    for s, base in zip(sizes, bases):
-        levels += [base] * s if pyrng.random() < 0.6 else [base + 0.3 * j for j in range(s)]
+    levels, patterns = [], []
+    bases = pyrng.sample([-5.0, -3.0, -1.0, 1.0], len(sizes))
+    for s_, base in zip(sizes, bases):
+        lv, pat = block_levels(pyrng, base, s_)
+        levels += lv
+        patterns.append(pat)
     rest = [4.0 + 1.3 * j + (0.4j * (j % 2) if (not hermitian and cplx) else 0) for j in range(n - nexp)]
     D = np.array(levels + rest, dtype=complex if cplx or not hermitian else float)
     if not cplx:
@@ -754,7 +778,7 @@ def float_problem(rs, pyrng, nmax):
     h0 = R @ np.diag(D) @ Ri
     if not cplx:
         h0 = h0.real
-    return dict(n=n, cplx=cplx, hermitian=hermitian, R=R, Ri=Ri, sizes=sizes, levels=levels, h0=h0)
+    return dict(n=n, cplx=cplx, hermitian=hermitian, R=R, Ri=Ri, sizes=sizes, levels=levels, h0=h0, patterns=patterns)
 
 
 def rotation_problem(pyrng):
@@ -825,9 +849,9 @@ def eval_float_problem(p, rs):
     with warnings.catch_warnings():
         warnings.simplefilter("ignore")
         # --- direct_greens_function on the first group
-        k = sizes[0] if len(set(np.round(p["levels"][:sizes[0]], 9))) == 1 else 1
-        Phi, PhiL = rights[0][:, :k], lefts[0][:, :k]
         E = p["levels"][0]
+        grp = [j for j in range(sizes[0]) if abs(p["levels"][j] - E) < 1e-9]  # all explicit vectors of that level
+        Phi, PhiL = rights[0][:, grp], lefts[0][:, grp]
         try:
             gf = impl_linalg.direct_greens_function(sp.csr_array(h0), E, kernel_vectors=Phi, left_kernel_vectors=None if p["hermitian"] else PhiL)
             b = rand_c(rs, (n,), p["cplx"] or rs.random() < 0.3)
@@ -977,9 +1001,10 @@ def oracle_greens(ctx, n=None):
         # to rounding accuracy (unitary or exact eigenvectors)
         p["default_opts"] = (p["hermitian"] or rot) and sub.random() < 0.4
         fs = eval_float_problem(p, rs)
-        feats.add((p["n"], p["cplx"], p["hermitian"], tuple(p["sizes"]), len(set(p["levels"])) < len(p["levels"]), p.get("family"), p.get("dense_h0"), p["default_opts"]))
+        feats.add((p["n"], p["cplx"], p["hermitian"], tuple(p["sizes"]), len(set(p["levels"])) < len(p["levels"]), p.get("family"), p.get("dense_h0"), p["default_opts"], tuple(p.get("patterns", ()))))
         for f in fs[:2]:
-            fails.append(dict(what=("[%s, %s h0] " % (p["family"], "dense" if p["dense_h0"] else "sparse") if rot else "") + f,
+            fails.append(dict(what=("[%s, %s h0] " % (p["family"], "dense" if p["dense_h0"] else "sparse") if rot else
+                                    "[explicit levels %s in blocks of sizes %s, %s, %s] " % ([complex(l).real if complex(l).imag == 0 else complex(l) for l in p["levels"]], p["sizes"], "Hermitian" if p["hermitian"] else "biorthogonal", "complex" if p["cplx"] else "real")) + f,
                               input=dict(oracle="greens", seed=seed, nmax=ctx.n(7, 12), rotation=rot)))
         if len(fails) > 10:
             break
@@ -990,7 +1015,7 @@ def oracle_greens(ctx, n=None):
         feats.add(("options", info["n"], info["cplx"]))
         for f in fs[:2]:
             fails.append(dict(what=f, input=dict(oracle="direct_options", seed=seed)))
-    return dict(evaluations=n + nopt, nontrivial=len(feats), rule="distinct (n, complex, hermitian, explicit block sizes, degenerate explicit levels, rotation family, dense h0, default options); (n, complex) for the option-handling cases", samples=[], failures=fails[:10])
+    return dict(evaluations=n + nopt, nontrivial=len(feats), rule="distinct (n, complex, hermitian, explicit block sizes, degenerate explicit levels, rotation family, dense h0, default options, level-order pattern of each explicit block); (n, complex) for the option-handling cases", samples=[], failures=fails[:10])
 
 
 def replay(inp):
@@ -999,6 +1024,8 @@ def replay(inp):
         rs = np.random.default_rng(inp["seed"])
         sub = __import__("random").Random(inp["seed"])
         p = rotation_problem(sub) if inp.get("rotation") else float_problem(rs, sub, inp["nmax"])
+        if not inp.get("rotation"):
+            print("  explicit levels", p["levels"], "block sizes", p["sizes"], "Hermitian" if p["hermitian"] else "biorthogonal", "complex" if p["cplx"] else "real", "n =", p["n"])
         if inp.get("rotation"):
             print("  h0 (real dtype, %s) =" % ("dense" if p["dense_h0"] else "sparse"), p["h0"].tolist(), "explicit levels", p["levels"], "blocks", p["sizes"])
         p["default_opts"] = (p["hermitian"] or bool(inp.get("rotation"))) and sub.random() < 0.4
